@@ -26,11 +26,39 @@ type Program struct {
 	Known    map[string]bool // known-finding ids with status "known"
 }
 
+const (
+	opReg = iota
+	opConst
+	opGlobal
+	opZero
+	opNil
+)
+
+// opnd is a precompiled operand: a register, a constant, a global or a fresh zero value.
+type opnd struct {
+	kind uint8
+	idx  int32
+	val  Value
+	g    *ssa.Global
+	t    types.Type
+}
+
+// pinstr carries the destination register and the operands of one instruction in the
+// canonical order used by visit.
+type pinstr struct {
+	dst int32
+	ops []opnd
+}
+
 type funcInfo struct {
-	idx   map[unsafe.Pointer]int32
-	nregs int
-	name  string
-	short string // name without package path for limit matching, e.g. "fsm.apply"
+	code      [][]pinstr // [block index][instruction index]
+	localZero []opnd
+	localReg  []int32
+	nphis     []int
+	idx       map[unsafe.Pointer]int32
+	nregs     int
+	name      string
+	short     string // name without package path for limit matching, e.g. "fsm.apply"
 }
 
 func (p *Program) info(fn *ssa.Function) *funcInfo {
@@ -56,6 +84,7 @@ func (p *Program) info(fn *ssa.Function) *funcInfo {
 		}
 	}
 	fi.nregs = int(n)
+	fi.precompile(fn)
 	fi.name = fn.String()
 	fi.short = shortName(fn)
 	p.finfo.Store(fn, fi)
@@ -241,6 +270,8 @@ type Machine struct {
 	constC       map[*ssa.Const]Value
 	identC       map[[2]types.Type]bool
 	rtErrType    types.Type
+	vstack       []Value // registers and non-escaping locals of the live frames
+	sp           int
 	ufFacts      []*sym.Term
 	modelRefuted bool
 	trackGlobals bool
@@ -985,6 +1016,7 @@ func (m *Machine) resetPath() {
 	m.inconcl = false
 	m.failure = nil
 	m.trackGlobals = false
+	m.sp = 0
 	m.forcedPos = 0
 	m.gStores, m.gLoads = nil, nil
 	m.ownedCells, m.ownedMaps = nil, nil
@@ -1127,4 +1159,126 @@ func (m *Machine) TrailVals() []int64 {
 // hashing is much cheaper than interface hashing).
 func vptr(v ssa.Value) unsafe.Pointer {
 	return (*[2]unsafe.Pointer)(unsafe.Pointer(&v))[1]
+}
+
+func (fi *funcInfo) operand(v ssa.Value) opnd {
+	switch v := v.(type) {
+	case nil:
+		return opnd{kind: opNil}
+	case *ssa.Const:
+		if v.Value == nil {
+			switch v.Type().Underlying().(type) {
+			case *types.Struct, *types.Array, *types.Tuple:
+				return opnd{kind: opZero, t: v.Type()} // aggregates are mutable: a fresh one per use
+			}
+		}
+		return opnd{kind: opConst, val: constValue0(v)}
+	case *ssa.Function:
+		return opnd{kind: opConst, val: v}
+	case *ssa.Builtin:
+		return opnd{kind: opConst, val: v}
+	case *ssa.Global:
+		return opnd{kind: opGlobal, g: v}
+	}
+	i, ok := fi.idx[vptr(v)]
+	if !ok {
+		panic(fmt.Sprintf("precompile: no register for %T %s", v, v.Name()))
+	}
+	return opnd{kind: opReg, idx: i}
+}
+
+// zeroOpnd: the zero value of t as an operand (shared when immutable).
+func zeroOpnd(t types.Type) opnd {
+	switch t.Underlying().(type) {
+	case *types.Struct, *types.Array, *types.Tuple:
+		return opnd{kind: opZero, t: t}
+	}
+	return opnd{kind: opConst, val: zero(t)}
+}
+
+// precompile resolves, once per function, the operands of every instruction.
+func (fi *funcInfo) precompile(fn *ssa.Function) {
+	for _, l := range fn.Locals {
+		fi.localZero = append(fi.localZero, zeroOpnd(deref(l.Type())))
+		fi.localReg = append(fi.localReg, fi.idx[vptr(l)])
+	}
+	fi.code = make([][]pinstr, len(fn.Blocks))
+	fi.nphis = make([]int, len(fn.Blocks))
+	for _, b := range fn.Blocks {
+		code := make([]pinstr, len(b.Instrs))
+		for i, in := range b.Instrs {
+			pi := &code[i]
+			pi.dst = -1
+			if v, ok := in.(ssa.Value); ok {
+				pi.dst = fi.idx[vptr(v)]
+			}
+			var vs []ssa.Value
+			switch in := in.(type) {
+			case *ssa.Phi:
+				fi.nphis[b.Index]++
+				vs = in.Edges
+			case *ssa.UnOp:
+				vs = []ssa.Value{in.X}
+			case *ssa.BinOp:
+				vs = []ssa.Value{in.X, in.Y}
+			case *ssa.Call:
+				vs = append([]ssa.Value{in.Call.Value}, in.Call.Args...)
+			case *ssa.Defer:
+				vs = append([]ssa.Value{in.Call.Value}, in.Call.Args...)
+			case *ssa.Go:
+				vs = append([]ssa.Value{in.Call.Value}, in.Call.Args...)
+			case *ssa.ChangeInterface:
+				vs = []ssa.Value{in.X}
+			case *ssa.ChangeType:
+				vs = []ssa.Value{in.X}
+			case *ssa.Convert:
+				vs = []ssa.Value{in.X}
+			case *ssa.MakeInterface:
+				vs = []ssa.Value{in.X}
+			case *ssa.Extract:
+				vs = []ssa.Value{in.Tuple}
+			case *ssa.Slice:
+				vs = []ssa.Value{in.X, in.Low, in.High, in.Max}
+			case *ssa.Return:
+				vs = in.Results
+			case *ssa.Panic:
+				vs = []ssa.Value{in.X}
+			case *ssa.Store:
+				vs = []ssa.Value{in.Addr, in.Val}
+			case *ssa.If:
+				vs = []ssa.Value{in.Cond}
+			case *ssa.MakeSlice:
+				vs = []ssa.Value{in.Len, in.Cap}
+			case *ssa.Range:
+				vs = []ssa.Value{in.X}
+			case *ssa.Next:
+				vs = []ssa.Value{in.Iter}
+			case *ssa.FieldAddr:
+				vs = []ssa.Value{in.X}
+			case *ssa.Field:
+				vs = []ssa.Value{in.X}
+			case *ssa.IndexAddr:
+				vs = []ssa.Value{in.X, in.Index}
+			case *ssa.Index:
+				vs = []ssa.Value{in.X, in.Index}
+			case *ssa.Lookup:
+				vs = []ssa.Value{in.X, in.Index}
+			case *ssa.MapUpdate:
+				vs = []ssa.Value{in.Map, in.Key, in.Value}
+			case *ssa.TypeAssert:
+				vs = []ssa.Value{in.X}
+			case *ssa.MakeClosure:
+				vs = in.Bindings
+			case *ssa.Alloc:
+				pi.ops = []opnd{zeroOpnd(deref(in.Type()))}
+			}
+			if len(vs) > 0 {
+				pi.ops = make([]opnd, len(vs))
+				for k, v := range vs {
+					pi.ops[k] = fi.operand(v)
+				}
+			}
+		}
+		fi.code[b.Index] = code
+	}
 }
